@@ -97,3 +97,28 @@ Theorem c03_images : forall a1 a2 a3 duration, mac_ok a1 -> mac_ok a2 -> mac_ok 
   create_cts a1 duration = s_cts a1 duration.
 Proof. exact images_exact. Qed.
 Print Assumptions c03_images.
+
+(* ---- statements about the C code AS TRANSLATED on this run (Gen/Sites.v: every guard, declaration, conversion and call argument with the
+   types clang computed; tools/sites.py), for every memory m and every environment: tie #1 extended from constants to arithmetic and
+   control flow.  Vocabulary in Spec/CodeSpec.v, evaluator and interpreter in Base/CExpr.v, proofs in Proofs/SitesProofs.v. ---- *)
+From Coq Require Import String.
+From LW Require Import Base.CExpr Gen.Sites Spec.CodeSpec Proofs.SitesProofs.
+Local Open Scope string_scope.
+Local Open Scope Z_scope.
+
+
+Theorem c03_code_length_routines : forall m ,
+  length_site_ok m sites_libwifi_get_beacon_length "beacon->tags.length" (2 ^ 63) (24 + 12) /\
+  length_site_ok m sites_libwifi_get_probe_req_length "probe_req->tags.length" (2 ^ 63) 24 /\
+  length_site_ok m sites_libwifi_get_probe_resp_length "probe_resp->tags.length" (2 ^ 63) (24 + 12) /\
+  length_site_ok m sites_libwifi_get_assoc_req_length "assoc_req->tags.length" (2 ^ 63) (24 + 4) /\
+  length_site_ok m sites_libwifi_get_assoc_resp_length "assoc_resp->tags.length" (2 ^ 63) (24 + 6) /\
+  length_site_ok m sites_libwifi_get_reassoc_req_length "reassoc_req->tags.length" (2 ^ 63) (24 + 10) /\
+  length_site_ok m sites_libwifi_get_reassoc_resp_length "reassoc_resp->tags.length" (2 ^ 63) (24 + 6) /\
+  length_site_ok m sites_libwifi_get_auth_length "auth->tags.length" (2 ^ 63) (24 + 6) /\
+  length_site_ok m sites_libwifi_get_deauth_length "deauth->tags.length" (2 ^ 63) (24 + 2) /\
+  length_site_ok m sites_libwifi_get_disassoc_length "disassoc->tags.length" (2 ^ 63) (24 + 2) /\
+  length_site_ok m sites_libwifi_get_timing_advert_length "adv->tags.length" (2 ^ 63) (24 + 21) /\
+  length_site_ok m sites_libwifi_get_action_length "action->fixed_parameters.details.detail_length" 256 (24 + 1).
+Proof. exact code_length_routines. Qed.
+Print Assumptions c03_code_length_routines.
